@@ -6,7 +6,7 @@ from typing import Dict, List, Optional, Set, Tuple
 
 from .cfg import CFG, Node, assume
 from .dataflow import Reaching, local_defs, own_nodes, own_statements, params_of, resolve_values, root_name
-from .match import text
+from .match import Expander, text
 from .report import Report
 from .source import AnalysisError, ClassInfo, Ext, Project, dotted, parent
 
@@ -666,14 +666,21 @@ def n_r8_cookies(p: Project, rep: Report):
     init = ci.own_func("__init__")
     if init is None:
         raise AnalysisError("OFXClient.__init__ not found")
+    try:
+        from .flat import flat as _flat
+
+        init = _flat(p, CLIENT, init, ci)  # `self.cookiejar = self._new_cookiejar()`
+    except Exception:
+        pass
     cfg = CFG(init)
+    jx = Expander(init)
     sets = [n for n in cfg.nodes if (isinstance(n.stmt, ast.Assign) and any(text(t) == "self.cookiejar" for t in n.stmt.targets)) or (isinstance(n.stmt, ast.AnnAssign) and n.stmt.value is not None and text(n.stmt.target) == "self.cookiejar")]
     ok = bool(sets) and cfg.must_pass_through([cfg.exit.id], [n.id for n in sets])
     rep.check("N-R8", "__init__:creates-jar-on-every-path", ok, "an instance can be constructed without its own cookie jar" if not ok else "", loc(p, init))
     for n in sets:
-        v = n.stmt.value
+        v = jx.x(n.stmt.value)  # a jar created into a local first
         fresh = isinstance(v, ast.Call) and (dotted(v.func) or "").split(".")[-1].endswith("CookieJar") and not v.args
-        if fresh and v.keywords:
+        if fresh and any(not (k.arg == "policy" and isinstance(k.value, ast.Constant) and k.value.value is None) for k in v.keywords):
             # CookieJar(policy=...): which of the server's cookies are kept and replayed is then the policy's decision
             rep.check("N-R8", "__init__:jar-default-policy", False, f"self.cookiejar = {text(v)[:70]}: the jar is given a cookie policy of its own; cookies a server sets that this policy refuses (domain cookies of multi-label hosts under a strict-domain policy, ...) are not replayed on the later requests of the client", loc(p, n.stmt))
         rep.check("N-R8", "__init__:jar-is-fresh", fresh, f"self.cookiejar = {text(v)}: not a freshly constructed jar, so it can be shared between client instances" if not fresh else "", loc(p, n.stmt))
